@@ -439,6 +439,9 @@ func (d *Decoder) Repair(checkParity bool) ([]string, error) {
 		}
 
 		entry := savedEntries[i]
+		if entry.header.FileBytes > uint64(len(shards[i])) {
+			return repairedPaths, errors.New("file entry byte count exceeds parity data byte count")
+		}
 		data = shards[i][:entry.header.FileBytes]
 		if sixteenKHash(data) != entry.header.SixteenKHash {
 			return repairedPaths, errors.New("hash mismatch (16k) in reconstructed data")
